@@ -76,6 +76,23 @@ CLAIMED = {
         "technique": "Coq proof (composition of the Base58/Bech32/SEC1/script theorems, total characterisation of the dispatcher) + ast-generated constants + correspondence",
         "design": "DESIGN.md section 8 / C08",
     },
+    "C09": {
+        "text": "Machine-checked proof (Coq 8.16.1): for every parent key k in [1,n-1], chain code and non-hardened index, N(CKDpriv) = "
+                "CKDpub(N(parent)) whenever both succeed and they fail together (I_L >= n, k_i = 0 / K_i = infinity characterised exactly); "
+                "hardened indices from a public key raise ValueError; CKDpriv/CKDpub/master-key generation equal the BIP32 spec written from "
+                "the BIP; path derivation equals the step-wise derivation (path_compose, including error classes) and every field of every "
+                "derived extended key (key, chain code, depth, fingerprint, child number, version) equals the spec's; serialisation "
+                "round-trips and deserialisation accepts EXACTLY the payloads BIP32 declares valid (78 bytes, known version, key type "
+                "matches version, 1 <= k < n / on-curve compressed point, zero parent data at depth 0, checksum). Versions, 2^31, the "
+                "master-key order literal and the HMAC key are regenerated (= Spec). Correspondence: BIP32 vector sets 1-5, seeds 16..64 "
+                "bytes, paths to depth 8 over boundary indices, field mutations of 78-byte payloads, small curves reaching the failure "
+                "branches, independent Python BIP32.",
+        "note": "PARTIAL for secp256k1: curve_facts and sqrt_facts are explicit premises (proved on the small curves). hmac_sha512, "
+                "sha256, ripemd160 arbitrary with the right output lengths. Paths restricted to ASCII. Trusted: Coq kernel, extraction, "
+                "harness, hashlib/hmac.",
+        "technique": "Coq proof (group-homomorphism algebra, refinement to a BIP32 spec, codec accept-iff) + regenerated constants + correspondence",
+        "design": "DESIGN.md section 8 / C09",
+    },
     "C10": {
         "text": "Machine-checked proof (Coq 8.16.1), all at full strength for an arbitrary 32-byte hash and any duplicate-free 2048-word "
                 "list: entropy of 16/20/24/28/32 bytes gives 12/15/18/21/24 list words (other lengths ValueError) and equals the BIP39 "
@@ -107,6 +124,22 @@ CLAIMED = {
                 "exercised on every case. Trusted: Coq kernel, extraction, harness.",
         "technique": "Coq proof (N-bit-level polymod linearity, radix regrouping, iff with the BIP predicate) + regenerated constants + correspondence",
         "design": "DESIGN.md section 8 / C06",
+    },
+    "C12": {
+        "text": "Machine-checked proof (Coq 8.16.1): for a 32-byte key in [1,n-1], any message and 32-byte aux the model of bip340.sign "
+                "returns exactly the signature of the BIP340 default signing algorithm (transcribed from the BIP), 64 bytes, accepted by "
+                "verify under the x-only public key; keys 0 / >= n raise ValueError, wrong key/aux lengths AssertionError; verify is SOUND "
+                "for all byte strings (whatever it accepts the BIP's Verify accepts - wrong lengths, r >= p, s >= n, off-curve keys, odd-y "
+                "R all rejected) and COMPLETE (accepts everything the BIP accepts) except on the path e = 0 mod n where the code raises "
+                "TypeError (explicit premise; reachable only on small curves); lift_x equals the BIP's lift_x. Tag strings, lift_x "
+                "literals and byte widths are read from the source by ast (= Spec). Correspondence: official vectors, keys incl. odd-y "
+                "points, messages 0..1024 bytes, every single-bit flip of pk/msg/sig (thorough), boundary r/s, wrong lengths, exhaustive "
+                "sweeps on three small curves, independent Python BIP340 reference.",
+        "note": "PARTIAL for secp256k1: curve_facts, lift_facts (square roots) and cofactor one are explicit premises (proved on the "
+                "small curves); the e = 0 (mod n) deviation needs a SHA-256 preimage to reach on secp256k1 and is reported in the evidence, "
+                "not as a finding. sha256 arbitrary with 32-byte output. Trusted: Coq kernel, extraction, harness, hashlib.",
+        "technique": "Coq proof (Schnorr algebra over the abstract group, refinement to a BIP340 spec) + ast-generated constants + correspondence",
+        "design": "DESIGN.md section 8 / C12",
     },
     "C13": {
         "text": "Machine-checked proof (Coq 8.16.1), full strength: for every list of defined non-push opcode names and non-empty data "
@@ -156,6 +189,24 @@ CLAIMED = {
         "technique": "Coq proof (refinement to level-wise merkle spec, CScriptNum minimality, codec round trip) + correspondence",
         "design": "DESIGN.md section 8 / C15, section 12",
     },
+    "C16": {
+        "text": "Machine-checked proof (Coq 8.16.1) about a byte-exact model of send_tx (value layer over IEEE binary64 as SpecFloat with a "
+                "PrimFloat twin, message layer, assembly layer): inputs are a prefix of the reported unspents with exact outpoints, "
+                "selection stops when the request is covered, outputs have the stated shape, and outputs + fee (+ sub-dust change) = inputs "
+                "exactly (given the float-to-satoshi conversion is exact - kernel-computed for the boundary amounts - and the request is "
+                "covered; both premises shown necessary); on the sub-domain where the code is right the signed messages ARE the legacy / "
+                "BIP143 sighash pre-images and every signature verifies (under curve_facts); outside it the deviations are proved as "
+                "_refuted theorems with vm_compute witnesses. The seven corresponding defect classes are listed in KNOWN_FINDINGS.txt "
+                "with narrow matchers and replayed witnesses; any other violation is reported. Correspondence: scripted UTXO source and "
+                "nonces, eight sender kinds x recipient kinds x flags x versions x locktimes, independent consensus-level checker "
+                "(own parser, legacy + BIP143 sighash, template unlock rules, OpenSSL ECDSA, exact Decimal arithmetic).",
+        "note": "PARTIAL by design: no script interpreter (validity is relative to the standard templates); sat_exact for all amounts and "
+                "request_covered are hypotheses; the full Spec.unlocks theorem is decided by the correspondence oracle; 7 KNOWN findings "
+                "(send_tx signing defects and raw-script sender/recipient refusals) print KNOWN-FINDING lines. PrimFloat/Uint63 "
+                "primitives appear in Print Assumptions of three examples. Trusted: Coq kernel, extraction, harness, OpenSSL.",
+        "technique": "Coq proof (value conservation over binary64, sighash refinement, _refuted witnesses) + known-findings replay + correspondence",
+        "design": "DESIGN.md section 8 / C16",
+    },
     "C17": {
         "text": "Machine-checked proof (Coq 8.16.1) over a socket model (stream + arbitrary schedule of positive chunk sizes): for every "
                 "command of the table, payload <= MAX_SIZE, trailing bytes and EVERY fragmentation, recv_msg returns exactly (magic, command, "
@@ -173,6 +224,22 @@ CLAIMED = {
                 "extraction, harness.",
         "technique": "Coq proof (induction on bytes still wanted over all chunk schedules, codec round trips) + regenerated tables + correspondence",
         "design": "DESIGN.md section 8 / C17",
+    },
+    "C18": {
+        "text": "Machine-checked proof (Coq 8.16.1) over an interleaving model of Node.recv_loop (atomic steps: receive, handled-command "
+                "test, handler send / enqueue): for ANY number of peers, ANY message programs and EVERY schedule that runs all threads to "
+                "completion, the final queue restricted to peer p is exactly p's unhandled messages in sending order tagged p, sent(p) is a "
+                "verack per version and a pong with the same nonce per ping in order and nothing else, the queue is a permutation of all "
+                "unhandled messages (no loss, duplication or handled message left queued); the result is schedule independent; a complete "
+                "schedule always exists. The pre-fix loop body (append, test, pop) is modelled too and REFUTED by a vm_compute witness "
+                "(the race). The registered command list and handler behaviour are probed from the code on every run (= model). "
+                "Correspondence: the real recv_loop bodies in real threads under a baton scheduler with scheduling points in "
+                "harness-supplied deque/list objects and sendall; all schedules of 2x<=2 and 3x1 programs, sampled 3x3.",
+        "note": "Assumes CPython GIL atomicity of deque.append/pop, `in` on a list and sendall on distinct sockets; thread start/stop, "
+                "socket timeouts, exit_event and malformed frames (which kill a receive thread) are outside the model. Trusted: Coq "
+                "kernel, extraction, harness scheduler.",
+        "technique": "Coq proof (invariant over all interleavings, schedule independence, refutation of the racy body) + scheduled real-thread correspondence",
+        "design": "DESIGN.md section 8 / C18",
     },
     "C19": {
         "text": "Machine-checked proof (Coq 8.16.1) over a file-store model (file number -> bytes, primitive trace Open/Write/Close): after "
